@@ -287,6 +287,11 @@ mod inner {
         /// set while `adjacent` looks for the start of a block: nested `construct!` parsers
         /// must fail fast too, otherwise a later field can consume the probed item
         pub(crate) failfast: bool,
+
+        /// a value was taken from an environment variable since a repeating parser last reset
+        /// this: lets it tell "failed on a value that is not on the command line" from other
+        /// failures that carry no item
+        pub(crate) env_used: bool,
     }
 
     impl State {
@@ -419,6 +424,7 @@ mod inner {
                 #[cfg(feature = "autocomplete")]
                 comp,
                 failfast: false,
+                env_used: false,
             }
         }
     }
